@@ -117,10 +117,10 @@ func (e *env) eval(x Expr) interface{} {
 }
 
 func (e *env) exec(x *Exec) interface{} {
-	oOut, oRet, oRetSet := e.out, e.ret, e.retSet
+	oOut, oRet, oRetSet, oDepth, oRange := e.out, e.ret, e.retSet, e.blockDepth, e.rangeDepth
 	e.out = &bytes.Buffer{}
-	e.ret, e.retSet = nil, false
-	defer func() { e.out, e.ret, e.retSet = oOut, oRet, oRetSet }()
+	e.ret, e.retSet, e.blockDepth, e.rangeDepth = nil, false, 0, 0
+	defer func() { e.out, e.ret, e.retSet, e.blockDepth, e.rangeDepth = oOut, oRet, oRetSet, oDepth, oRange }()
 	e.include(x.Name, x.Ctx, nil, false, false)
 	if !e.retSet {
 		return nil
